@@ -204,6 +204,8 @@ type Env struct {
 	axioms    []string          // background axioms (asserted in every query)
 	axiomSet  map[string]bool   //
 	litIdx    map[string]string // string literal -> const name
+	litVal    map[string]string // const name -> string literal
+	catParts  map[string][]Term // canonical concatenations: term -> its flattened parts
 	tagIdx    map[string]int    // type string -> tag
 	tagNames  []string
 	fresh     int
@@ -328,6 +330,49 @@ func (e *Env) base() {
 
 // StrLit returns the constant for a Go string literal, declaring its length and
 // bytes on first use.
+// Cat builds a concatenation in a canonical shape: flattened, right-nested, adjacent literals merged into one literal.
+// ("a" + "b") + x, "a" + ("b" + x) and "ab" + x become the same term, so splitting or joining string constants in the
+// code does not disturb the contracts.
+func (e *Env) Cat(a, b Term) Term {
+	if e.catParts == nil {
+		e.catParts = map[string][]Term{}
+	}
+	if e.litVal == nil {
+		e.litVal = map[string]string{}
+	}
+	parts := func(t Term) []Term {
+		if p, ok := e.catParts[t.S]; ok {
+			return p
+		}
+		return []Term{t}
+	}
+	all := append(append([]Term{}, parts(a)...), parts(b)...)
+	var merged []Term
+	for _, t := range all {
+		if t.S == "str_empty" {
+			continue
+		}
+		if v, isLit := e.litVal[t.S]; isLit && len(merged) > 0 {
+			if pv, prevLit := e.litVal[merged[len(merged)-1].S]; prevLit {
+				merged[len(merged)-1] = e.StrLit(pv + v)
+				continue
+			}
+		}
+		merged = append(merged, t)
+	}
+	if len(merged) == 0 {
+		return Term{"str_empty", SStr}
+	}
+	res := merged[len(merged)-1]
+	for i := len(merged) - 2; i >= 0; i-- {
+		res = App(SStr, "scat", merged[i], res)
+	}
+	if len(merged) > 1 {
+		e.catParts[res.S] = merged
+	}
+	return res
+}
+
 func (e *Env) StrLit(s string) Term {
 	if s == "" {
 		return Term{"str_empty", SStr}
@@ -337,6 +382,10 @@ func (e *Env) StrLit(s string) Term {
 	}
 	name := fmt.Sprintf("lit!%d", len(e.litIdx))
 	e.litIdx[s] = name
+	if e.litVal == nil {
+		e.litVal = map[string]string{}
+	}
+	e.litVal[name] = s
 	e.Decl(name, fmt.Sprintf("(declare-fun %s () Str) ; %q", name, truncate(s, 60)))
 	e.Axiom(fmt.Sprintf("(= (slen %s) %d)", name, len(s)))
 	if len(s) <= 64 {
